@@ -375,6 +375,40 @@ fn reprogram<F: FieldElement>(bits: usize, ctx: &[u8], nonce: &[u8], public: &mu
     None
 }
 
+/// Shift the (data, auth) value correction word at `off` so that the reconstructed values at
+/// prefixes `p` and `d` sum to (1, k). Linear in the shift, so two evaluations give the slope.
+#[allow(clippy::too_many_arguments)]
+fn split_solve<F: FieldElement>(bits: usize, ctx: &[u8], nonce: &[u8], public: &mut Vec<u8>, inputs: &[Vec<u8>], p: &str, d: &str, off: usize, k: Option<&[u8]>) -> Option<()> {
+    let fs = F::ENCODED_SIZE;
+    let k = F::get_decoded(k?).ok()?;
+    let sum_at = |public: &Vec<u8>| -> Option<(F, F)> {
+        let (pd, pa) = eval_sum(bits, ctx, nonce, public, inputs, p)?;
+        let (dd, da) = eval_sum(bits, ctx, nonce, public, inputs, d)?;
+        Some((F::get_decoded(&pd).ok()? + F::get_decoded(&dd).ok()?, F::get_decoded(&pa).ok()? + F::get_decoded(&da).ok()?))
+    };
+    let orig = public.clone();
+    let s0 = sum_at(public)?;
+    fe_add::<F>(&mut public[off..off + fs], F::one(), false)?;
+    fe_add::<F>(&mut public[off + fs..off + 2 * fs], F::one(), false)?;
+    let s1 = sum_at(public)?;
+    *public = orig.clone();
+    let (md, ma) = (s1.0 - s0.0, s1.1 - s0.1);
+    if md == F::zero() || ma == F::zero() {
+        return None;
+    }
+    let dd = (F::one() - s0.0) * md.inv();
+    let da = (k - s0.1) * ma.inv();
+    fe_add::<F>(&mut public[off..off + fs], dd, false)?;
+    fe_add::<F>(&mut public[off + fs..off + 2 * fs], da, false)?;
+    let s2 = sum_at(public)?;
+    if s2.0 == F::one() && s2.1 == k {
+        Some(())
+    } else {
+        *public = orig;
+        None
+    }
+}
+
 #[allow(clippy::too_many_arguments)]
 pub fn byz_rewrite_poplar(bits: usize, ctx: &[u8], nonce: &[u8; 16], meas: &[N], public: &mut Vec<u8>, inputs: &mut Vec<Vec<u8>>, edits: &[ByzEdit], aps: &[ApSpec]) -> Vec<ByzLabel> {
     let input = bits_to_string(meas);
@@ -421,6 +455,44 @@ pub fn byz_rewrite_poplar(bits: usize, ctx: &[u8], nonce: &[u8; 16], meas: &[N],
                     let _ = fe_add::<Field64>(&mut inputs[a][off..off + 8], Field64::from(d), false);
                 }
                 notes.push(format!("{} share of aggregator {a} at level {l} altered", if w == 0 { "A" } else { "B" }));
+            }
+            ByzEdit::SplitOne { flip_level, dist } => {
+                let fl = *flip_level as usize % bits;
+                // the first parameter whose candidate list has the on-path prefix and a candidate
+                // `dist` positions away inside the flipped sibling subtree
+                let mut done = false;
+                for ap in aps {
+                    let plen = ap[0].len();
+                    if plen <= fl + 1 || plen > bits {
+                        continue;
+                    }
+                    let p = &input[..plen];
+                    let Some(i) = ap.iter().position(|c| c == p) else { continue };
+                    let d = *dist as usize;
+                    let cand = [i.checked_add(d), i.checked_sub(d)].into_iter().flatten().filter_map(|j| ap.get(j)).find(|c| c[..fl] == p[..fl] && c.as_bytes()[fl] != p.as_bytes()[fl]);
+                    let Some(dpre) = cand else { continue };
+                    // flip the off-path control-bit correction at level fl
+                    let off_side = if p.as_bytes()[fl] == b'1' { 0 } else { 1 };
+                    let bit = 2 * fl + off_side;
+                    public[bit / 8] ^= 1 << (bit % 8);
+                    let level = plen - 1;
+                    // inner levels only: Field255::inv() is `unimplemented!()` in the library, and the
+                    // solve needs a field inverse
+                    let r = if level == bits - 1 { None } else { split_solve::<Field64>(bits, ctx, nonce, public, inputs, p, dpre, inner_off + 16 * level, honest_auth[level].as_deref()) };
+                    let _ = leaf_off;
+                    match r {
+                        Some(()) => notes.push(format!("one split between the on-path candidate {p} and the live candidate {dpre} ({d} positions apart): their values sum to (1, authenticator)")),
+                        None => {
+                            public[bit / 8] ^= 1 << (bit % 8);
+                            notes.push("split-the-one rewrite had no solution (value correction applied with opposite signs)".into());
+                        }
+                    }
+                    done = true;
+                    break;
+                }
+                if !done {
+                    notes.push("split-the-one rewrite not applicable to these candidates".into());
+                }
             }
             ByzEdit::KeyBytes { agg, which, m } => {
                 let a = *agg as usize % 2;
